@@ -31,6 +31,20 @@
 #endif
 #define GD_LZMA_DATA_IN 32752
 #define GD_LZMA_LOOKBACK 4096
+#ifdef GD_VERIF_HOOKS
+# ifdef GD_VERIF_LZMA_DATA_OUT
+#  undef GD_LZMA_DATA_OUT
+#  define GD_LZMA_DATA_OUT GD_VERIF_LZMA_DATA_OUT
+# endif
+# ifdef GD_VERIF_LZMA_DATA_IN
+#  undef GD_LZMA_DATA_IN
+#  define GD_LZMA_DATA_IN GD_VERIF_LZMA_DATA_IN
+# endif
+# ifdef GD_VERIF_LZMA_LOOKBACK
+#  undef GD_LZMA_LOOKBACK
+#  define GD_LZMA_LOOKBACK GD_VERIF_LZMA_LOOKBACK
+# endif
+#endif
 
 struct gd_lzmadata {
   lzma_stream xz;
